@@ -17,6 +17,14 @@ func c11Tracks(layout string) []vfyh.Track {
 		return []vfyh.Track{{Media: "video", Timescale: 1000, Chunks: [][]int{{1, 2}, {1, 1}, {2}}, Durs: []uint32{40}, Sync: []uint32{1, 3, 5}}}
 	case "vc":
 		return []vfyh.Track{{Media: "video", Timescale: 12800, Chunks: [][]int{{1}, {2}, {1}, {1}, {1}}, Durs: []uint32{512}, Ctos: []int32{1024, 0, 512}, Sync: []uint32{1, 4}}}
+	case "vr":
+		// durations in runs (stts with several entries): 40 40 40 33 33 50
+		return []vfyh.Track{{Media: "video", Timescale: 1000, Chunks: [][]int{{1, 2}, {1, 1}, {2}}, Durs: []uint32{40, 40, 40, 33, 33, 50}, Sync: []uint32{1, 3, 5}}}
+	case "var":
+		return []vfyh.Track{
+			{Media: "video", Timescale: 1000, Chunks: [][]int{{2, 1}, {1, 1}, {1}}, Durs: []uint32{40}, Sync: []uint32{1, 3, 5}},
+			{Media: "audio", Timescale: 48000, Chunks: [][]int{{1, 1, 1}, {1, 1}, {1, 1, 1, 1}, {1, 1, 1}}, Durs: []uint32{1024, 1024, 1024, 1024, 1024, 1024, 1024, 1024, 1024, 1024, 1024, 366}},
+		}
 	case "va":
 		return []vfyh.Track{
 			{Media: "video", Timescale: 1000, Chunks: [][]int{{2, 1}, {1, 1}, {1}}, Durs: []uint32{40}, Sync: []uint32{1, 3, 5}},
@@ -28,10 +36,17 @@ func c11Tracks(layout string) []vfyh.Track {
 
 // VerifC11Segmenter runs the segmenter tool's pipeline (per-track files or multiplexed) on a
 // progressive file and checks that every sample of every track is conserved, in order.
-func VerifC11Segmenter(layout string, segDurMS int, multi bool) {
+func VerifC11Segmenter(layout string, segDurMS int, mode string) {
+	multi, lazy := mode == "multi", mode == "lazy"
 	tracks := c11Tracks(layout)
 	pf := vfyh.BuildProg(tracks, false)
-	parsed, err := mp4.DecodeFile(bytes.NewReader(pf.Bytes))
+	var parsed *mp4.File
+	var err error
+	if lazy {
+		parsed, err = mp4.DecodeFile(bytes.NewReader(pf.Bytes), mp4.WithDecodeMode(mp4.DecModeLazyMdat))
+	} else {
+		parsed, err = mp4.DecodeFile(bytes.NewReader(pf.Bytes))
+	}
 	if err != nil {
 		panic("harness: input does not decode")
 	}
@@ -64,6 +79,8 @@ func VerifC11Segmenter(layout string, segDurMS int, multi bool) {
 	out := vfy.TempPath("seg")
 	if multi {
 		err = makeMultiTrackSegments(segmenter, parsed, nil, out)
+	} else if lazy {
+		err = makeSingleTrackSegmentsLazyWrite(segmenter, parsed, bytes.NewReader(pf.Bytes), out)
 	} else {
 		err = makeSingleTrackSegments(segmenter, parsed, nil, out)
 	}
